@@ -485,7 +485,7 @@ impl Exact {
         })
     }
     fn lat(&self) -> Lat {
-        Lat { ox: self.ox, oy: self.oy, sh: self.sh }
+        Lat { ox: self.ox, oy: self.oy, sh: self.sh, shear: 0 }
     }
     /// the same map as an AffineTransform<f64> with exactly representable entries
     fn transform(&self) -> AffineTransform<f64> {
@@ -699,7 +699,7 @@ pub fn run(ctx: &Ctx, sh: &mut Shard) {
             1 => {
                 let g = *r.pick(&[3i64, 4, 6, 8]);
                 let a = gen_any(&mut r, g);
-                let lat = if r.chance(1, 2) { Lat::ID } else { Lat { ox: r.range(-50, 50), oy: r.range(-50, 50), sh: r.range(-3, 3) as i32 } };
+                let lat = if r.chance(1, 2) { Lat::ID } else { Lat { ox: r.range(-50, 50), oy: r.range(-50, 50), sh: r.range(-3, 3) as i32, shear: 0 } };
                 let op = rand_top(&mut r);
                 trait_case(sh, &a, &lat, &op, false);
             }
